@@ -178,6 +178,27 @@ func (w *cntWorld) compareRegistry(m *regModel, what string) {
 			fail("C04: eACL(%s) = %s, expected %s (%s)", b.label, ea, wantE, what)
 		}
 	}
+	// byte strings that are no id of a live container but look like one: prefixes of a live id, the empty
+	// string, a live id with a byte appended - every getter must say "not found" (FAULT), none may answer
+	var firstLive *liveCnt
+	for _, l := range m.live {
+		if firstLive == nil || string(l.blob.id) < string(firstLive.blob.id) {
+			firstLive = l
+		}
+	}
+	for _, l := range []*liveCnt{firstLive} {
+		if l == nil {
+			break
+		}
+		id := l.blob.id
+		for _, q := range [][]byte{id[:31], id[:16], id[:1], {}, append(append([]byte{}, id...), 0)} {
+			for _, name := range []string{"get", "owner", "alias", "eACL"} {
+				if o := w.c.Call(nil, w.cnt, name, q); o.Halt {
+					fail("C04: %s(%x) - a %d-byte string related to the live id of %s - answered %s instead of 'not found' (%s)", name, q, len(q), l.blob.label, o, what)
+				}
+			}
+		}
+	}
 	// listings
 	all := []string{}
 	per := map[int][]string{}
